@@ -39,8 +39,15 @@
     pub open spec fn vfy_wbar<const K: usize, const L: usize>(a: [[T; L]; K], zs: Seq<Seq<int>>, c: Seq<int>, t1d2m: [T; K], k: int, n: int) -> int {
         dotz(a, zs, k, n, L as int) - spec_ntt(c)[n] * demont(t1d2m[k].0[n] as int)
     }
+    pub open spec fn vfy_wbar_seq<const K: usize, const L: usize>(a: [[T; L]; K], zs: Seq<Seq<int>>, c: Seq<int>, t1d2m: [T; K], k: int) -> Seq<int> {
+        Seq::new(256, |n: int| vfy_wbar(a, zs, c, t1d2m, k, n))
+    }
     pub open spec fn vfy_w<const K: usize, const L: usize>(a: [[T; L]; K], zs: Seq<Seq<int>>, c: Seq<int>, t1d2m: [T; K], k: int) -> Seq<int> {
-        spec_invntt(Seq::new(256, |n: int| vfy_wbar(a, zs, c, t1d2m, k, n)))
+        spec_invntt(vfy_wbar_seq(a, zs, c, t1d2m, k))
+    }
+    pub open spec fn vfy_w1fn<const K: usize, const L: usize>(a: [[T; L]; K], c: R, t1d2m: [T; K], sig: Seq<u8>, gamma1: int, gamma2: int, omega: int, lam4: int) -> spec_fn(int, int) -> int {
+        |k: int, n: int| spec_use_hint(gamma2, sig_h(sig, gamma1, lam4, L as int, omega, k, n),
+                                       vfy_w(a, sig_zs(sig, gamma1, lam4, L as int), poly_ints(c.0), t1d2m, k)[n])
     }
     pub open spec fn sig_zs(sig: Seq<u8>, gamma1: int, lam4: int, l: int) -> Seq<Seq<int>> {
         Seq::new(l as nat, |i: int| Seq::new(256, |j: int| sig_z(sig, gamma1, lam4, i, j)))
@@ -54,18 +61,21 @@
     }
     pub open spec fn verify_core<const K: usize, const L: usize>(a: [[T; L]; K], c: R, t1d2m: [T; K], mu: Seq<u8>, sig: Seq<u8>,
             gamma1: int, gamma2: int, omega: int, lam4: int) -> bool {
-        let zs = sig_zs(sig, gamma1, lam4, L as int);
-        let w1 = |k: int, n: int| spec_use_hint(gamma2, sig_h(sig, gamma1, lam4, L as int, omega, k, n), vfy_w(a, zs, poly_ints(c.0), t1d2m, k)[n]);
+        let w1 = vfy_w1fn(a, c, t1d2m, sig, gamma1, gamma2, omega, lam4);
         exists|w1b: Seq<u8>| #[trigger] w1_fields_ok(w1b, gamma2, K as int, w1) && sig.subrange(0, lam4) == stream_take(shake256(mu + w1b), 0, lam4)
     }
-    // C02: what Verify_internal returns, as a function of (pk struct, M', sigma) up to the relational choice of A and c
+    // C02: what Verify_internal returns, as a function of (pk struct, mu, sigma) up to the relational choice of A and c:
+    // true only for canonical hint sections; for those, exactly (norm test && c~ == H(mu || w1Encode(UseHint(h, W)))).
     pub open spec fn verify_spec<const K: usize, const L: usize>(res: bool, pk: PublicKey<K, L>, mu: Seq<u8>, sig: Seq<u8>,
             beta: int, gamma1: int, gamma2: int, omega: int, tau: int, lam4: int) -> bool {
-        exists|a: [[T; L]; K], c: R| #![trigger expand_a_rel(pk.rho@, a), sib_rel(tau, shake256(sig.subrange(0, lam4)), c)]
-            expand_a_rel(pk.rho@, a) && sib_rel(tau, shake256(sig.subrange(0, lam4)), c)
-            && res == (hint_canonical(sig_hint_bytes(sig, gamma1, lam4, L as int), omega, K as int)
-                       && sig_z_norm_ok(sig, gamma1, beta, lam4, L as int)
-                       && verify_core(a, c, pk.t1_d2_hat_mont, mu, sig, gamma1, gamma2, omega, lam4))
+        let canon = hint_canonical(sig_hint_bytes(sig, gamma1, lam4, L as int), omega, K as int);
+        &&& res ==> canon
+        &&& canon ==> exists|a: [[T; L]; K], c: R| #[trigger] verify_wit(pk, sig, tau, lam4, a, c)
+                && res == (sig_z_norm_ok(sig, gamma1, beta, lam4, L as int)
+                           && verify_core(a, c, pk.t1_d2_hat_mont, mu, sig, gamma1, gamma2, omega, lam4))
+    }
+    pub open spec fn verify_wit<const K: usize, const L: usize>(pk: PublicKey<K, L>, sig: Seq<u8>, tau: int, lam4: int, a: [[T; L]; K], c: R) -> bool {
+        expand_a_rel(pk.rho@, a) && sib_rel(tau, shake256(sig.subrange(0, lam4)), c)
     }
     // two byte strings with the same w1 fields are equal (the fields determine the bytes, chunk by chunk)
     pub proof fn lemma_w1_unique(b1: Seq<u8>, b2: Seq<u8>, gamma2: int, kk: int, w1: spec_fn(int, int) -> int)
